@@ -14,6 +14,13 @@ def cases(draw):
     for L in spec['layers']:
         if draw(st.integers(0, 99)) < 50:
             L['hooks'] = sorted(set(L['hooks']) | {'testSetUp', 'testTearDown'}, key=gen.HOOKS.index)
+    if draw(st.integers(0, 5)) == 0:
+        # instance layers whose hooks are callable objects with value equality: the hooks of different layers compare
+        # equal, each layer still gets its own call
+        for L in spec['layers']:
+            L['eq_hooks'] = True
+            if draw(st.booleans()):
+                L['kind'] = 'inst'
     opts = {'repeat': draw(st.sampled_from([1, 1, 1, 2, 3])),
             'shuffle': draw(st.one_of(st.none(), st.integers(0, 10 ** 6))),
             'verbose': draw(st.integers(0, 2))}
@@ -70,7 +77,7 @@ class InProc(Part):
             else:
                 viol += traceana.check_per_test_hooks(w, evs, skl)
         # an aborted run is C04's business, but it truncates the history: label it
-        labels = []
+        labels = ['hooks-that-compare-equal'] if any(L.get('eq_hooks') for L in spec['layers']) else []
         if case['opts'].get('nested'):
             labels.append('nested-run')
         if run.exc is not None:
